@@ -69,3 +69,67 @@ Proof.
   destruct (vshape v) as [[H W] D] eqn:Sh. cbn. repeat split.
   intros P Hf. pose proof (fills_zoom0 P sc sc sc v Hf) as Z0. unfold v_zoom in Z0. rewrite Sh in Z0. exact Z0.
 Qed.
+
+(* ---- Longest / SmallestMaxSize: the image is zoomed by max_size / extreme extent (not at all when that is 1),
+   and the header hook uses the very same factor ---- *)
+Definition zoomed (f : Q) (ip : Z) (v : view) : view := if Qne_bool f 1 then v_zoom f f f ip v else v.
+
+Lemma LongestMaxSize_image v m ip H W D : vshape v = (H, W, D) -> (0 < H)%Z -> (0 < W)%Z -> (0 < D)%Z ->
+  LongestMaxSize_apply v m ip W H D = Ok (zoomed (inject_Z m / inject_Z (Z.max (Z.max H W) D)) ip v).
+Proof.
+  intros Sh PH PW PD. unfold LongestMaxSize_apply, longest_max_size, _func_max_size_max. rewrite Sh.
+  replace (Z.max (Z.max W H) D) with (Z.max (Z.max H W) D) by lia.
+  rewrite divq_ok by (apply inject_pos; lia). cbn. unfold zoomed, scale.
+  destruct (Qne_bool _ 1); reflexivity.
+Qed.
+
+Lemma SmallestMaxSize_image v m ip H W D : vshape v = (H, W, D) -> (0 < H)%Z -> (0 < W)%Z -> (0 < D)%Z ->
+  SmallestMaxSize_apply v m ip W H D = Ok (zoomed (inject_Z m / inject_Z (Z.min (Z.min H W) D)) ip v).
+Proof.
+  intros Sh PH PW PD. unfold SmallestMaxSize_apply, smallest_max_size, _func_max_size_min. rewrite Sh.
+  replace (Z.min (Z.min W H) D) with (Z.min (Z.min H W) D) by lia.
+  rewrite divq_ok by (apply inject_pos; lia). cbn. unfold zoomed, scale.
+  destruct (Qne_bool _ 1); reflexivity.
+Qed.
+
+Theorem max_size_image_and_header_share_the_factor v d m ip H W D :
+  vshape v = (H, W, D) -> (0 < H)%Z -> (0 < W)%Z -> (0 < D)%Z ->
+  (let f := inject_Z m / inject_Z (Z.max (Z.max H W) D) in
+   LongestMaxSize_apply v m ip W H D = Ok (zoomed f ip v) /\
+   exists d', LongestMaxSize_apply_to_dicom d m ip W H D = Ok d' /\
+     h_spacing d' = (fst (h_spacing d) * f, snd (h_spacing d) * f) /\ same_but_spacing d' d) /\
+  (let f := inject_Z m / inject_Z (Z.min (Z.min H W) D) in
+   SmallestMaxSize_apply v m ip W H D = Ok (zoomed f ip v) /\
+   exists d', SmallestMaxSize_apply_to_dicom d m ip W H D = Ok d' /\
+     h_spacing d' = (fst (h_spacing d) * f, snd (h_spacing d) * f) /\ same_but_spacing d' d).
+Proof.
+  intros Sh PH PW PD. split; cbn zeta; split.
+  - apply LongestMaxSize_image; assumption.
+  - exact (LongestMaxSize_dicom d m ip W H D PH PW PD).
+  - apply SmallestMaxSize_image; assumption.
+  - exact (SmallestMaxSize_dicom d m ip W H D PH PW PD).
+Qed.
+
+(* the extreme side of the result is exactly max_size *)
+Lemma Qne_bool_false_eq a b : Qne_bool a b = false -> a == b.
+Proof. unfold Qne_bool. intros E. apply negb_false_iff in E. apply Qeq_bool_iff. exact E. Qed.
+
+Theorem longest_side_becomes_max_size v m ip H W D vi :
+  vshape v = (H, W, D) -> (0 < H)%Z -> (0 < W)%Z -> (0 < D)%Z ->
+  LongestMaxSize_apply v m ip W H D = Ok vi ->
+  let '(h', w', d') := vshape vi in
+  let M := Z.max (Z.max H W) D in
+  (H = M -> h' = m) /\ (W = M -> w' = m) /\ (D = M -> d' = m).
+Proof.
+  intros Sh PH PW PD E. rewrite (LongestMaxSize_image v m ip H W D Sh PH PW PD) in E. inversion E; subst. clear E.
+  unfold zoomed. set (M := Z.max (Z.max H W) D).
+  destruct (Qne_bool (inject_Z m / inject_Z M) 1) eqn:N.
+  - unfold v_zoom. rewrite Sh. cbn. repeat split; intros EM; rewrite <- EM; apply zoom_len_exact; lia.
+  - apply Qne_bool_false_eq in N.
+    assert (PM : (0 < M)%Z) by (unfold M; lia).
+    assert (Em : m = M).
+    { assert (inject_Z m == inject_Z M).
+      { rewrite <- (Qmult_1_l (inject_Z M)), <- N. field. apply inject_pos. exact PM. }
+      apply inject_Z_injective. assumption. }
+    rewrite Sh. cbn. repeat split; intros; lia.
+Qed.
